@@ -539,3 +539,119 @@ def rule_encaps(prog, res, la):
                 res.fail(R, inst, "R-ENCAPS|%s|r|%s.%s" % (f.name, a.key[0], a.key[1]), a.loc(),
                          "%s (outside channel.c) reads the cursor field %s.%s without the channel lock" % (f.name, a.key[0], a.key[1]))
     return n
+
+
+def rule_stale_across_wait(prog, res, la, protected, rule="R-STALE-READ"):
+    """A value read from the lock-protected cursors before a
+    condition_variable_wait is stale after it (the wait releases the lock): no
+    local defined from such a read may be used after the wait without being
+    re-read."""
+    n = 0
+    for site in la.wait_sites():
+        f = site["fn"]
+        if not site["lock"] or site["lock"][0] != "channel":
+            continue
+        res.touched(f)
+        al = la.aliases(f)
+        prot = {("channel", p) for p in protected}
+
+        def reads_protected(expr):
+            for ev in la.stmt_events(f, expr, al):
+                if ev[0] == "r" and ev[1] in prot:
+                    return True
+                if ev[0] == "call" and ev[1]:
+                    g = prog.resolve(ev[1], f)
+                    if g is not None:
+                        args = ev[2].get("args", [])
+                        for (k2, m2) in la.effects(g):
+                            if m2 != "r":
+                                continue
+                            if k2 in prot:
+                                return True
+                            if k2[0] == "param" and k2[1] < len(args):
+                                from .locks import points_into
+                                t = points_into(args[k2[1]])
+                                if t in prot:
+                                    return True
+            return False
+        defs = []
+        for b, i, s in f.all_stmts():
+            for lv, op, rhs, w in ir.writes_of(s):
+                if lv.get("k") == "var" and rhs is not None and not lv.get("pd") and reads_protected(rhs):
+                    defs.append((b.id, i, s, lv))
+        wb, wi = site["block"], site["idx"]
+
+        def redefines(s, vid):
+            for lv, op, rhs, w in ir.writes_of(s):
+                if lv.get("k") == "var" and lv["id"] == vid:
+                    return True
+            # passing &v to a call re-defines it (out parameter)
+            for c in ir.calls_in(s):
+                for a in c.get("args", []):
+                    a0 = ir.strip(a)
+                    if isinstance(a0, dict) and a0.get("k") == "addr" and ir.strip(a0["e"]).get("k") == "var" and ir.strip(a0["e"])["id"] == vid:
+                        return True
+            return False
+
+        def uses(s, vid):
+            for x in ir.walk(s):
+                if x.get("k") == "var" and x["id"] == vid:
+                    return True
+            return False
+        for db, di, ds, v in defs:
+            n += 1
+            vid = v["id"]
+            # does the definition reach the wait un-redefined?
+            reach = False
+            seen = set()
+            st = [(db, di + 1)]
+            while st and not reach:
+                b, i0 = st.pop()
+                if (b, i0) in seen:
+                    continue
+                seen.add((b, i0))
+                blk = f.blocks[b]
+                killed = False
+                for j in range(i0, len(blk.stmts)):
+                    if b == wb and j == wi:
+                        reach = True
+                        break
+                    if redefines(blk.stmts[j], vid):
+                        killed = True
+                        break
+                if reach or killed:
+                    continue
+                for t in blk.succ_ids():
+                    st.append((t, 0))
+            stale_use = None
+            if reach:
+                seen = set()
+                st = [(wb, wi + 1)]
+                while st and stale_use is None:
+                    b, i0 = st.pop()
+                    if (b, i0) in seen:
+                        continue
+                    seen.add((b, i0))
+                    blk = f.blocks[b]
+                    killed = False
+                    for j in range(i0, len(blk.stmts)):
+                        s = blk.stmts[j]
+                        if uses(s, vid) and not (redefines(s, vid) and not any(
+                                x.get("k") == "var" and x["id"] == vid for lv, op, rhs, w in ir.writes_of(s) for x in ir.walk(rhs or {}))):
+                            stale_use = s
+                            break
+                        if redefines(s, vid):
+                            killed = True
+                            break
+                    if stale_use is not None or killed:
+                        continue
+                    for t in blk.succ_ids():
+                        st.append((t, 0))
+            inst = "%s: '%s' (read from the cursors at line %s) is not used across the wait" % (f.name, v["n"], ds.get("line"))
+            if stale_use is None:
+                res.oblige(rule, inst, True, "re-read after every wake-up, or not live across the wait", f.loc(ds))
+            else:
+                res.fail(rule, inst, "%s|%s|%s" % (rule, f.name, v["n"]), f.loc(stale_use),
+                         "%s computes '%s' from the readers' cursors before condition_variable_wait and uses it again after waking up (line %s) without re-reading: the wait releases the lock, readers move meanwhile, and the writer decides on a stale slowest reader"
+                         % (f.name, v["n"], stale_use.get("line")))
+    return n
